@@ -163,9 +163,11 @@ def expand_case(case):
         return out
 
 
-def check_step(case, before, after, mode, copied, step_tag, res, killed=False):
-    """before/after: {name bytes: record} of the destination directory."""
-    tnames = {b(x) for x in case["names"]}
+def check_step(case, before, after, mode, copied, step_tag, res, killed=False, sources=None):
+    """before/after: {name bytes: record} of the destination directory.  sources: the names that were sources of this very
+    invocation (a name of the case that is not copied this time is an ordinary entry -- it may well be the backup that is due)."""
+    step_names = list(sources) if sources is not None else list(case["names"])
+    tnames = {b(x) for x in step_names}
     for en, a in before.items():
         if en in tnames:
             continue
@@ -176,14 +178,14 @@ def check_step(case, before, after, mode, copied, step_tag, res, killed=False):
     for nm in case["names"]:
         nb = b(nm)
         old = before.get(nb)
-        targets = {b(x) for x in case["names"]}   # entries that are themselves copy targets are nobody's backup
+        targets = {b(x) for x in step_names}   # entries that are themselves copy targets are nobody's backup
         bk_before_all = backups_of(before, nb)   # byte-exact <name>.~N~, what 'such a backup already exists' means
         bk_before = {k: en for k, en in bk_before_all.items() if en not in targets}
         bk_after = {k: en for k, en in backups_of(after, nb).items() if en not in targets}
         ncls = case["ncls"]
         # no existing backup may change or vanish
         for k, en in bk_before.items():
-            if u(en) in case["names"]:
+            if u(en) in step_names:
                 continue  # that entry is itself a copy target of this invocation
             a, c = before[en], after.get(en)
             if c is None or c.get("sha") != a.get("sha") or c["k"] != a["k"]:
@@ -258,10 +260,10 @@ def run_history(case, res):
                                                     % (tag, u(en), st["mode"], sorted(backups_of(before, nb0)))})
             if not run.exit0:
                 # a failing step must still not lose anything
-                check_step(case, before, after, st["mode"], {}, tag + " [failed run]", res)
+                check_step(case, before, after, st["mode"], {}, tag + " [failed run]", res, sources=st["files"])
                 res["counters"]["step-nonzero"] = res["counters"].get("step-nonzero", 0) + 1
                 break
-            check_step(case, before, after, st["mode"], st["files"], tag, res)
+            check_step(case, before, after, st["mode"], st["files"], tag, res, sources=st["files"])
             # the copy itself
             for nm, f in st["files"].items():
                 rec = after.get(b(nm))
